@@ -3,7 +3,7 @@ CONSTANTS
   MaxDepth = 3
   MaxM = 2
   MaxWild = 2
-  MaxW = 2
+  MaxW = 1
   Deep = "z"
   WithTable = FALSE
 INIT Init
